@@ -235,6 +235,9 @@ func (r *rwRT) ruleRangeDispatch() {
 					_, isTP := paramT.(*types.TypeParam)
 					if isTP {
 						under = coreOfTypeParam(paramT.(*types.TypeParam))
+						if under == nil && k.name == "integer" && allTermsInteger(paramT.(*types.TypeParam)) {
+							under = types.Typ[types.Int] // constrained to the integer types: any integer kind is accepted
+						}
 					}
 					// an operand of a defined type (type Name string, type Ints []int) is assignable to the parameter
 					// only if that is a type parameter or an unnamed type literal ([]V, map[K]V, <-chan V), never
@@ -430,4 +433,32 @@ func coreOfTypeParam(tp *types.TypeParam) types.Type {
 		}
 	}
 	return core
+}
+
+// allTermsInteger: every term of the type parameter's constraint is an integer type.
+func allTermsInteger(tp *types.TypeParam) bool {
+	iface, _ := tp.Constraint().Underlying().(*types.Interface)
+	if iface == nil || iface.NumEmbeddeds() == 0 {
+		return false
+	}
+	for i := 0; i < iface.NumEmbeddeds(); i++ {
+		var ts []types.Type
+		switch e := iface.EmbeddedType(i).(type) {
+		case *types.Union:
+			for j := 0; j < e.Len(); j++ {
+				ts = append(ts, e.Term(j).Type())
+			}
+		default:
+			ts = append(ts, e)
+		}
+		for _, t := range ts {
+			if b, ok := t.Underlying().(*types.Basic); !ok || b.Info()&types.IsInteger == 0 {
+				if it, isI := t.Underlying().(*types.Interface); isI && it.NumEmbeddeds() > 0 {
+					continue // a nested constraint interface: its own terms are checked where it is declared
+				}
+				return false
+			}
+		}
+	}
+	return true
 }
